@@ -796,6 +796,8 @@ class Interp:
         raise Unsupported('rvalue ' + k)
 
     def discriminant(self, v):
+        if isinstance(v, int) or is_sym(v):
+            return v          # C-like enums with explicit values (Signal, ...) are carried as their integer value
         if isinstance(v, Agg):
             t = v.tag
             d = DISCR.get(t)
